@@ -88,9 +88,13 @@ def describe_para(e, v):
     if "panic" in e:
         return f"break_line panicked: {e['panic']} on {show_nodes(e['orig'])}"
     d = v.get("diag", {})
+    if v["key"] == "differs_from_tex_golden":
+        return (f"golden paragraph {d.get('file')}: every clause holds for the list the code built, but the vertical list "
+                f"differs from the one real TeX made of the same text (the horizontal list itself is not TeX's)")
     return (f"break_line on [{show_nodes(e['orig'])}] widths {e['P']['widths']} indents {e['P']['indents']} "
             f"breakpoints {e.get('bps')}: clause {v['key']} fails; vertical item {d.get('at')}: "
-            f"TeX {json.dumps(d.get('tex'))[:600]} / code {json.dumps(d.get('got'))[:600]}")
+            f"TeX{' with the recorded deviations' if d.get('with_recorded_deviations') else ''} "
+            f"{json.dumps(d.get('tex'))[:600]} / code {json.dumps(d.get('got'))[:600]}")
 
 
 def slim(e):
@@ -154,8 +158,10 @@ def model_plb(ctx):
 
 def model_plb_deep(ctx):
     if not ctx.quick:
-        tlc_model(ctx, "PostLineBreak.laws_len5", "MC_PostLineBreak", "MC_PostLineBreak_len5.cfg", workers=6,
+        tlc_model(ctx, "PostLineBreak.laws_len5", "MC_PostLineBreak", "MC_PostLineBreak_len5.cfg", workers=5,
                   coverage=False, xmx="6g", timeout=3000)
+        tlc_model(ctx, "PostLineBreak.laws_len3_all_settings", "MC_PostLineBreak", "MC_PostLineBreak_len3.cfg",
+                  workers=5, coverage=False, xmx="6g", timeout=3000)
 
 
 def negs(ctx, module, lst, name):
